@@ -114,4 +114,29 @@ Section Global.
     apply length_zero_iff_nil in L1, L2, L3. repeat split; try assumption.
     apply exactly_once_at_quiescence; assumption.
   Qed.
+  (* THE BARRIER'S CRITERION.  cntok: what RankExecCount establishes of a rank in main context - its send counter is the
+     number of messages it originated, its receive counter the number of handlers it started.  If the counters of all ranks
+     at the cut sum to the same value (what the count reduction of barrier() tests), then nothing is pending anywhere and the
+     handlers started are exactly the messages originated: every async issued has executed exactly once. *)
+  Definition cntok (r : rk) : Prop :=
+    scnt (r_st r) = Z.of_nat (length (og (r_h r))) /\ rcnt (r_st r) = Z.of_nat (length (X (r_h r))).
+  Fixpoint sumf (f : rk -> Z) (l : list rk) : Z := match l with [] => 0 | r :: t => f r + sumf f t end.
+
+  Lemma length_flat_map_sum (f : rk -> list Z) (g : rk -> Z) l :
+    Forall (fun r => g r = Z.of_nat (length (f r))) l -> Z.of_nat (length (flat_map f l)) = sumf g l.
+  Proof.
+    induction 1 as [|r t Hr _ IH]; [reflexivity|]. cbn [flat_map sumf]. rewrite app_length, Nat2Z.inj_add, IH, Hr. reflexivity.
+  Qed.
+
+  Theorem balanced_counters_mean_exactly_once :
+    Forall cntok rs -> sumf (fun r => scnt (r_st r)) rs = sumf (fun r => rcnt (r_st r)) rs ->
+    owed = [] /\ U = [] /\ in_buffers = [] /\ Permutation originated executed.
+  Proof.
+    intros HC Hsum. apply counts_equal_means_nothing_pending.
+    assert (Eo : Z.of_nat (length originated) = sumf (fun r => scnt (r_st r)) rs).
+    { unfold originated. apply length_flat_map_sum. eapply Forall_impl; [|exact HC]. intros r (A1 & _). unfold uO. rewrite !map_length. exact A1. }
+    assert (Ee : Z.of_nat (length executed) = sumf (fun r => rcnt (r_st r)) rs).
+    { unfold executed. apply length_flat_map_sum. eapply Forall_impl; [|exact HC]. intros r (_ & A2). unfold uX. exact A2. }
+    lia.
+  Qed.
 End Global.
